@@ -81,6 +81,11 @@ def run(report, db, tier):
            lambda rid, c: c.startswith(('status:narrow', 'status:default',
                                         'status:reconnect')),
            lambda sub: c09.status_evaluation(sub, db, S, M, Proto(db)))
+    borrow(report, 'R15.8', 'the version the fallback logs in with: without '
+           'an initial_version the default is the latest *allowed* version '
+           '(C09\'s construction rule)',
+           lambda rid, c: c.startswith('default:'),
+           lambda sub: c09.construction(sub, db, cg, M, Proto(db)))
 
 
 def loop_events(paths):
@@ -209,7 +214,7 @@ def r2(report, db, cg, S, M, type_ci, packet_ci):
     pb = db.get_class(BUFFER, 'PacketBuffer')
     raw = set()
     for f in db.funcs:
-        if f.module is rp.module:
+        if f.module is rp.module or f.module is pb.module:
             raw |= set(id(x) for x in raw_reads(db, cg, f, type_ci,
                                                 packet_ci))
     res = reassembly.analyse(S, rp, raw, pb)
